@@ -13,12 +13,22 @@ Bases == Rep(Requests0 \cup Responses0 \cup Errors0)
 BaseMsgs == {Env0 @@ x : x \in Bases} \cup {[Env0 EXCEPT !.ip = "ip:a"] @@ x : x \in {y \in Bases : y.kind = "r_ping"}}
 TopPaths(d) == {<<k>> : k \in DOMAIN d}
 SubPaths(d, k) == IF k \in DOMAIN d THEN {<<k, j>> : j \in DOMAIN d[k]} ELSE {}
-Paths(m) == LET d == Encode(m) IN TopPaths(d) \cup SubPaths(d, "a") \cup SubPaths(d, "r")
+\* the elements of the error list [code, text] are paths of their own ("1", "2")
+ListPaths(d) == IF "e" \in DOMAIN d THEN {<<"e", "1">>, <<"e", "2">>} ELSE {}
+Paths(m) == LET d == Encode(m) IN TopPaths(d) \cup SubPaths(d, "a") \cup SubPaths(d, "r") \cup ListPaths(d)
+\* fields the decoder reads as text: a multi-byte character straddling every byte offset (a length limit applied with a
+\* byte index panics exactly there), long ASCII; the other fields get the same at a few boundary offsets
+StrPaths == {<<"e", "2">>, <<"q">>, <<"y">>}
+UDevs == Lab("utf8@", (1..300) \cup {511, 512, 513, 1000, 1023, 1024, 1025}) \cup Lab("utf8w@", 2..140)
+         \cup Lab("ascii@", {64, 65, 127, 128, 129, 255, 256, 257, 512, 1000, 1400})
+UBound == Lab("utf8@", {1, 2, 16, 32, 64, 100, 128, 256, 512, 1000})
 Devs == {"drop", "int0", "int-1", "int65536", "int2^31", "int2^63", "int-2^63", "intbig", "bytes0", "bytes1", "bytes-1", "bytes+1",
          "bytes3", "bytes5", "bytes18", "bytes2000", "list", "listofint", "dict", "elem-empty", "elem-short", "elem-double", "elem-int",
          "text-nonutf8", "dup-key"}
 One == {[m |-> m, devs |-> <<[path |-> p, dev |-> d]>>] : m \in BaseMsgs, p \in UNION {Paths(x) : x \in BaseMsgs}, d \in Devs}
 OneOf(m) == {[m |-> m, devs |-> <<[path |-> p, dev |-> d]>>] : p \in Paths(m), d \in Devs}
+            \cup {[m |-> m, devs |-> <<[path |-> p, dev |-> d]>>] : p \in Paths(m) \cap StrPaths, d \in UDevs}
+            \cup {[m |-> m, devs |-> <<[path |-> p, dev |-> d]>>] : p \in Paths(m) \ StrPaths, d \in UBound}
 \* pairs: two deviations on distinct paths, from a reduced deviation set
 Devs2 == {"drop", "int0", "bytes0", "list", "int2^63", "elem-empty"}
 TwoOf(m) == {[m |-> m, devs |-> <<[path |-> p, dev |-> d], [path |-> q, dev |-> e]>>] :
